@@ -117,6 +117,11 @@ func propC02(c *Ctx, r *Report) {
 	r.floor("ptrtype.scaware", 3)
 	r.Clauses = append(r.Clauses, "width-named capabilities (E18): in a switch over a scalar bit width the capability constants named in the arm for width N carry N in their name (Float16 / Int16 / ...16BitAccess for 16, Float64 / Int64 for 64, Int8 for 8)")
 	c.runWidthSuffix(r, "width.suffix", "spirv", "Capability")
+	r.Clauses = append(r.Clauses, "capability per instruction (E62): a function that builds an instruction whose capability is not implied by Shader (image queries, fine / coarse derivatives, subgroup operations, ray queries, float atomic add, integer dot products - table from the SPIR-V specification) declares that capability itself, or every one of its callers (to depth 3) does")
+	c.runCapOpcode(r, "cap.opcode", "spirv/internal/codegen", map[string]string{
+		"spirv/internal/codegen.atomicOpcode:OpAtomicFAddEXT": "AtomicFloat32AddEXT is declared when the atomic<f32> type is emitted (emitType, AtomicType arm), and the pointer operand of every float atomic has that type",
+	})
+	r.floor("cap.opcode", 40)
 	r.floor("width.suffix", 6)
 	r.Clauses = append(r.Clauses, "merge before branch (E28, go/cfg must-analysis): in every function of the SPIR-V emitter, on every control-flow path to the emission of an OpBranchConditional or OpSwitch terminator an OpSelectionMerge / OpLoopMerge has been emitted before (directly, through a builder method or through a local closure)")
 	r.Clauses = append(r.Clauses, cacheKeyClause)
